@@ -28,8 +28,8 @@ def run(ctx):
     for (d, ng, depth) in plans:
         gates = L.gaussian_catalogue(d, rng=rng, size=ng)
         recs = GR.explore(ctx, d, gates, depth)
-        if quick and len(recs) > 40:
-            recs = rng.sample(recs, 40)
+        if len(recs) > (40 if quick else 400):
+            recs = rng.sample(recs, 40 if quick else 400)
         perm = GR.xxpp_to_xpxp_perm(d)
         other = None
         for rec in recs:
